@@ -26,7 +26,11 @@ def run(c):
         scripts = xslib.generate(c, plans, num=c.pick(60, 500))
         scripts = xslib.variants(scripts, c.rng)
     c.log("%d scripts" % len(scripts))
-    lines = xslib.execute(c, binp, scripts, "main")
+    lines = xslib.execute_or_crash(c, binp, scripts, "main")
+    if lines is None:
+        c.finish_args = dict(rule="crashed", distinct_nontrivial=len(scripts))
+        c.sample(dict(script=xslib.fmt(scripts[0])))
+        return
     verdicts = [v for v in xslib.monitor(c, lines, "main") if v["clause"] in CLAUSES]
     byid = {s["id"]: s for s in scripts}
     c.traces_validated += len(scripts)
